@@ -21,7 +21,13 @@
      idsign ci oid idhash hash idpriv tape -> err idsig used
      idsign2 ci oid idhash hash idpriv t|N -> err idsig
      idvfy ci oid idhash hash idsig idpub pub -> err
+     wrapip ci key hdr|N pub tape mode  -> as wrap, but key and header are placed INSIDE the token buffer before the call
+                                           (mode 0: key at token, header at token+len; 1: both at their final places
+                                           token+no, token+no+len; 2: header at token, key at token+16; 3: header at
+                                           token+no, key at token+no+16; 4: key at token, header separate)
+     unwrapip ci token hdr|N priv       -> as unwrap with key == token + no (decryption in place)
      hash data                          -> belt-hash(data)              (helper of the search oracle)
+     wble theta buf / wbld theta buf    -> belt-WBL encryption / decryption of buf under the 32-octet key theta (helpers)
    Outputs are "-" unless err == 0.  Buffers of a wrong length give "bad-op" (same rule in the Lean driver). */
 #include <bee2/core/err.h>
 #include <bee2/core/mem.h>
@@ -79,6 +85,21 @@ static void handle(int argc, char** argv)
 		beltHash(h, B[0], L[0]);
 		put_hex(h, 32);
 		unload(0);
+		return;
+	}
+	if ((IS("wble") || IS("wbld")) && argc == 3)
+	{
+		octet* st = (octet*)malloc(beltWBL_keep());
+		load(0, argv[1], 0); load(1, argv[2], 0);
+		if (L[0] != 32 || L[1] < 32) printf("bad-op");
+		else
+		{
+			beltWBLStart(st, B[0], 32);
+			if (IS("wble")) beltWBLStepE(B[1], L[1], st); else beltWBLStepD(B[1], L[1], st);
+			put_hex(B[1], L[1]);
+		}
+		free(st);
+		unload(0); unload(1);
 		return;
 	}
 	if (IS("oper") && argc == 7)
@@ -193,6 +214,41 @@ static void handle(int argc, char** argv)
 		e = bignKeyWrap(tok, &prm, B[0], L[0], B[1], B[2], tape_gen, &t);
 		out_err(e, tok, 16 + no + L[0]);
 		printf(" %zu", t.used);
+		free(tok);
+	}
+	else if (IS("wrapip") && argc == 7)
+	{
+		octet* tok;
+		octet* kp;
+		octet* hp;
+		size_t len, mode = (size_t)u_arg(argv[6]);
+		tape_t t;
+		load(0, argv[2], 0); load(1, argv[3], 1); load(2, argv[4], 0); load(3, argv[5], 0); n = 4;
+		len = L[0];
+		if (L[2] != 2 * no || (!isnull[1] && L[1] != 16) || mode > 4) BAD
+		t.p = B[3], t.len = L[3], t.used = 0;
+		tok = (octet*)malloc(16 + no + len);
+		memset(tok, 0xA5, 16 + no + len);
+		kp = tok + (mode == 1 ? no : mode == 2 ? 16 : mode == 3 ? no + 16 : 0);
+		hp = mode == 0 ? tok + len : mode == 1 ? tok + no + len : mode == 2 ? tok : mode == 3 ? tok + no : B[1];
+		memcpy(kp, B[0], len);
+		if (isnull[1]) hp = 0; else if (mode != 4) memcpy(hp, B[1], 16);
+		e = bignKeyWrap(tok, &prm, kp, len, hp, B[2], tape_gen, &t);
+		out_err(e, tok, 16 + no + len);
+		printf(" %zu", t.used);
+		free(tok);
+	}
+	else if (IS("unwrapip") && argc == 5)
+	{
+		octet* tok;
+		size_t kl;
+		load(0, argv[2], 0); load(1, argv[3], 1); load(2, argv[4], 0); n = 3;
+		if (L[2] != no || (!isnull[1] && L[1] != 16) || L[0] < no) BAD
+		kl = L[0] >= 16 + no ? L[0] - 16 - no : 0;
+		tok = (octet*)malloc(L[0] ? L[0] : 1);
+		memcpy(tok, B[0], L[0]);
+		e = bignKeyUnwrap(tok + no, &prm, tok, L[0], B[1], B[2]);
+		out_err(e, tok + no, kl);
 		free(tok);
 	}
 	else if (IS("unwrap") && argc == 5)
